@@ -141,6 +141,22 @@ Theorem C15_mufid_additive_value :
 Proof. exact mufid_additive_value. Qed.
 Print Assumptions C15_mufid_additive_value.
 
+(* when the correlation is defined: the rank variance is positive as soon as two entries differ, 0 when all are tied;
+   for a sample: as soon as two of its subsets change the score differently *)
+Theorem C15_rank_var_pos : forall v x y, In x v -> In y v -> x <> y -> 0 < rank_var v.
+Proof. exact rank_var_pos. Qed.
+Print Assumptions C15_rank_var_pos.
+
+Theorem C15_rank_var_const : forall v d, (forall x, In x v -> x = d) -> rank_var v = 0.
+Proof. exact rank_var_const. Qed.
+Print Assumptions C15_rank_var_const.
+
+Theorem C15_drop_var_pos :
+  forall (score : sample -> sample -> Qc) bm c r m m', In m (rm r) -> In m' (rm r) ->
+    score (degrade bm c (rx r) m) (rt r) <> score (degrade bm c (rx r) m') (rt r) -> 0 < drop_var score bm c r.
+Proof. exact drop_var_pos. Qed.
+Print Assumptions C15_drop_var_pos.
+
 (* mufid_constant_zero — when the score never varies over the applied subsets, every correlation and the metric are 0 *)
 Theorem C15_mufid_constant_zero :
   forall (score : sample -> sample -> Qc) bm c cphi bs nb rows rs,
